@@ -353,7 +353,16 @@ def dump_string(s, ascii_only=False):
     return "".join(out)
 
 
+class NegZero(int):
+    """The integer zero written with a sign (the token `-0`): the value 0, another spelling."""
+
+    def __new__(cls, *_):
+        return int.__new__(cls, 0)
+
+
 def dump_number(x):
+    if isinstance(x, NegZero):
+        return "-0"
     if isinstance(x, int):
         return str(x)
     r = repr(x)
@@ -415,7 +424,9 @@ def gen_char(rng, cls):
     if cls == "ls_ps":
         return rng.choice("\u2028\u2029")
     if cls == "specials":
-        return rng.choice("\ufffd\ufffe\uffff\ud7ff\ue000")
+        # (the code points around the surrogate block, and those whose 16-bit pattern looks like a surrogate when a mask is a
+        # bit too wide or too narrow)
+        return rng.choice("\ufffd\ufffe\uffff\ud7ff\ue000\uf800\ufbff\ufb03\uf8ff\ufc00\uf7ff\ud000\ucfff\ue7ff\uc800")
     if cls == "astral":
         return chr(rng.choice((rng.randint(0x10000, 0x10FFFF), 0x1F603, 0x10000, 0x10FFFF, 0xFFFFF)))
     return ""
